@@ -308,10 +308,10 @@ class AsciiMapCartesian(AsciiMap):
         iMin = min(key[0] for key in self.asciiLabelByIndices)
         jMin = min(key[1] for key in self.asciiLabelByIndices)
 
-        if iMin > 0 or jMin > 0:
+        if iMin != 0 or jMin != 0:
             raise ValueError(
-                "Asciimaps only supports sets of indices that "
-                "start at less than or equal to zero, got {}, {}".format(iMin, jMin)
+                "Cartesian asciimaps only supports sets of indices that "
+                "start at zero, got {}, {}".format(iMin, jMin)
             )
 
     def _getIJFromColRow(self, columnNum, lineNum):
